@@ -24,6 +24,17 @@ class Syn:
         self.normalised = 0
         for f in self.j["files"]:
             self.normalised += synnorm.normalise(f)
+        # in the emitter's file family, a private method called once is read inlined into its caller (up to three
+        # rounds: a helper of a helper)
+        try:
+            fam = _emitter_family(self.j["files"])
+            for _ in range(3):
+                k_ = synnorm.inline_single_use_methods(fam) if fam else 0
+                self.normalised += k_
+                if not k_:
+                    break
+        except Exception:
+            pass
         # functions found by role (kv/roles.py, from the MIR facts extracted together with these) are given their
         # canonical names, so that no syntax-tree rule depends on what a private function happens to be called
         self.renamed = {}
@@ -364,3 +375,22 @@ def norm_owned_text(txt):
             break
         t = t2
     return t
+
+
+def _emitter_family(files):
+    """the file whose non-test code has a format! literal containing `pub fn parse`, with its child modules"""
+    main = []
+    for f in files:
+        p = f["path"]
+        if "/tests" in p or p.endswith("build.rs") or p.endswith("/parser.rs"):
+            continue
+        for it in f["items"]:
+            if is_cfg_test(it):
+                continue
+            if any(m.get("name") == "format" and m.get("args") and m["args"][0].get("k") == "Lit" and m["args"][0]["lit"].get("t") == "str" and "pub fn parse" in m["args"][0]["lit"]["v"] for m in nodes(it, "Macro")):
+                main.append(p)
+                break
+    if len(main) != 1:
+        return []
+    stem = main[0][:-3] + "/"
+    return [f for f in files if f["path"] == main[0] or (f["path"].startswith(stem) and "/tests" not in f["path"])]
